@@ -237,6 +237,22 @@ def check_identifiers(ctx, num=2):
                 ctx.ob(num, "K11", "a sort without a key compares whole elements: its elements must not carry identifiers (random uuids, container numbers), which would break ties",
                        ok, f, n, detail=f"{norm.U(n)[:120]} in {f.qual}; identifier components of the entries: {[norm.U(x) for x in idk]}")
     ctx.count_min("sort/min/max sites", n_sorts, 2)
+    # node identifiers are whole uuid4 values: the schedulers tell operators apart by id across pipelines, so two draws must never give one id
+    from ..util import attr_writes
+    ws = [w for w in attr_writes(P, "id", include_mutation=False) if w.fn.mod.rel == "eudoxia/utils/dag.py" and w.fn.cls == "Node"]
+    for w in ws:
+        v = getattr(w.node, "value", None)
+        whole = False
+        e = v
+        if isinstance(e, ast.Call) and isinstance(e.func, ast.Name) and e.func.id == "str" and len(e.args) == 1:
+            e = e.args[0]
+        if isinstance(e, ast.Attribute) and e.attr in ("hex", "int", "urn", "bytes"):
+            e = e.value
+        if isinstance(e, ast.Call) and norm.U(e.func) in ("uuid.uuid4", "uuid4") and not e.args and not e.keywords:
+            whole = True
+        ctx.ob(num, "K11", "a node identifier is a whole uuid4 (never a slice or another shortened form of one): whatever values are drawn, distinct nodes get distinct identifiers",
+               whole, w.fn, w.node, construct="Node.id = uuid.uuid4()", detail=f"{stmt_text(w.node)}")
+    ctx.ob(num, "K11", "node identifiers are assigned in one place", len(ws) == 1, None, None, file="eudoxia/utils/dag.py", construct="Node.id writers", detail=f"{[repr(w) for w in ws]}")
     # uses of container_id: identifier contexts only
     for f in _funcs(P):
         for n in own_nodes(f.node):
@@ -640,7 +656,42 @@ def check_defaults(ctx, num=5):
            construct="constant defaults", detail=f"parameters: {gd.params()}; names read: {reads}")
 
 
+def check_workload_driven_by_ticks(ctx, num=6):
+    """The workload a run sees must not depend on the cluster or the policy it is run with: inside run_simulator the workload object is
+    stepped once per tick (C06#3) and nothing else is ever asked of it or done to it — the executor's or scheduler's state cannot steer it."""
+    P = ctx.P
+    f = P.fn(SIM, "run_simulator")
+    ctx.touch(f)
+    ps = f.params()
+    w = ps[1] if len(ps) > 1 else "workload"
+    n_ok = 0
+    for n in own_nodes(f.node):
+        if not (isinstance(n, ast.Name) and n.id == w):
+            continue
+        p_ = parent(n)
+        ok = isinstance(n.ctx, ast.Store)
+        how = "bound"
+        if isinstance(n.ctx, ast.Load):
+            if isinstance(p_, ast.Attribute) and p_.value is n and p_.attr == "run_one_tick" and isinstance(parent(p_), ast.Call) and parent(p_).func is p_ \
+                    and not parent(p_).args and not parent(p_).keywords:
+                ok, how = True, "stepped"
+            elif isinstance(p_, ast.Compare) and all(isinstance(o, (ast.Is, ast.IsNot)) for o in p_.ops):
+                ok, how = True, "tested for None"
+            else:
+                how = f"used as `{norm.U(p_)[:80]}`"
+        if ok:
+            n_ok += 1
+        else:
+            ctx.ob(num, "K1", "inside a run the workload object is only stepped (`workload.run_one_tick()`): nothing else is asked of it, and it is handed to nobody", False, f, n,
+                   construct="uses of the workload object in run_simulator", detail=how)
+    ctx.ob(num, "K1", "inside a run the workload object is only stepped (`workload.run_one_tick()`): nothing else is asked of it, and it is handed to nobody", n_ok >= 3, f, f.node,
+           construct="uses of the workload object in run_simulator", detail=f"{n_ok} admissible use(s)")
+    from . import c06
+    c06.check_main_loop(Renumber(ctx, {3: num}), 3)       # ... once per tick, unconditionally, before the scheduler
+
+
 def run(ctx):
+    check_workload_driven_by_ticks(ctx, 6)
     check_defaults(ctx, 5)
     check_workload_per_run(ctx, 6)
     check_set_iteration(ctx, 1)
